@@ -142,7 +142,11 @@ func (sc *Scenario) Main(o Options) int {
 	fmt.Printf("%s tier=%s seed=%d runs=%d workers=%d\n", sc.ID, tierName(o.Thorough), o.Seed, n, o.Workers)
 
 	// determinism spot check: the first runs, executed twice, must produce
-	// identical event-log hashes and identical tapes.
+	// identical event-log hashes and identical tapes. A divergence is harness
+	// trouble (exit 2) - unless the run finds violations: code under test that
+	// behaves nondeterministically (e.g. a sync.Pool) and breaks the property is
+	// reported as the violation it is.
+	nondet := ""
 	for i := 0; i < 24 && i < n; i++ {
 		a, ca := sc.Execute(NewGenTape(SubSeed(o.Seed, uint64(i))), uint64(i), o.Seed, o.Thorough, newStats(), false)
 		b, cb := sc.Execute(NewGenTape(SubSeed(o.Seed, uint64(i))), uint64(i), o.Seed, o.Thorough, newStats(), false)
@@ -154,9 +158,9 @@ func (sc *Scenario) Main(o Options) int {
 			sb = b.Sig
 		}
 		if ca.h != cb.h || sa != sb || ca.T.Draws != cb.T.Draws {
-			fmt.Fprintf(os.Stderr, "DETERMINISM: %s run %d seed %d differs between two executions (hash %x vs %x, sig %q vs %q)\n",
+			nondet = fmt.Sprintf("DETERMINISM: %s run %d seed %d differs between two executions (hash %x vs %x, sig %q vs %q)",
 				sc.ID, i, o.Seed, ca.h, cb.h, sa, sb)
-			return 2
+			break
 		}
 	}
 
@@ -213,6 +217,11 @@ func (sc *Scenario) Main(o Options) int {
 		}
 	}
 
+	if nondet != "" && violations == 0 {
+		fmt.Fprintln(os.Stderr, nondet)
+		fmt.Fprintln(os.Stderr, "no violation was found, but two executions of the same tape differed: either the harness or the code under test is nondeterministic; no verdict (exit 2)")
+		return 2
+	}
 	if err := sc.writeEvidence(o, res, violations, len(knownSeen)); err != nil {
 		fmt.Fprintf(os.Stderr, "evidence: %v\n", err)
 		return 2
